@@ -656,6 +656,48 @@ def r_continue(body):
         body = body[:st] + new + body[je:]
 
 
+def r_iife(body):
+    """(|| -> Result<_, E> { Ok(X?) })()      ->  (X)        when the closure body is a single `Ok(X?)`: identity if X already has error type E
+       { (|| -> Result<_, E> { BODY })().map_err(|e| e.annotate(S)) }   as the WHOLE function body  ->  { BODY }
+    (an immediately-invoked closure only scopes `?`; the annotation only edits the error payload, which is opaque here; R-iife)"""
+    log = []
+    # whole-body form first
+    t = body.strip()
+    mo = re.match(r"^\{\s*\(\s*\|\|\s*->\s*Result<[^>]*>\s*\{", t)
+    if mo:
+        m = code_mask(t)
+        ob = mo.end() - 1
+        cb = match_close(t, m, ob)
+        rest = t[cb + 1:]
+        r2 = re.match(r"^\s*\)\s*\(\s*\)\s*\.map_err\(\s*\|\s*\w+\s*\|\s*\w+\.annotate\([^()]*(\([^()]*\))?[^()]*\)\s*\)\s*\}$", rest, re.S)
+        if r2:
+            log.append(("R-iife", "{ (|| -> Result<_, E> { BODY })().map_err(|e| e.annotate(..)) }", "{ BODY }"))
+            body = "{" + t[ob + 1:cb] + "}"
+    guard = 0
+    while True:
+        guard += 1
+        if guard > 100:
+            raise Unsupported("R-iife: did not converge")
+        m = code_mask(body)
+        mo = None
+        for x in re.finditer(r"\(\s*\|\|\s*->\s*Result<[^>]*>\s*\{", body):
+            if m[x.start()]:
+                mo = x
+                break
+        if mo is None:
+            return body, log
+        ob = mo.end() - 1
+        cb = match_close(body, m, ob)
+        inner = body[ob + 1:cb].strip()
+        after = re.match(r"\s*\)\s*\(\s*\)", body[cb + 1:])
+        im = re.match(r"^Ok\((.*)\?\s*\)$", inner, re.S)
+        if not after or not im or ";" in inner:
+            raise Unsupported("R-iife: only `(|| -> Result<_, E> { Ok(X?) })()` and the whole-body form are rewritten")
+        new = "(" + im.group(1).strip() + ")"
+        log.append(("R-iife", norm_ws(body[mo.start():cb + 1 + after.end()])[:160], norm_ws(new)[:120]))
+        body = body[:mo.start()] + new + body[cb + 1 + after.end():]
+
+
 def r_tryfold(body):
     """RECV.try_fold(INIT, |ACC, PAT| BODY)  ->  { let mut ACC = INIT; for PAT in RECV { ACC = (BODY)?; } ACC_OK }
     where the whole expression is in tail / `?` position; emitted as a block evaluating to Result: Ok(ACC).
@@ -985,7 +1027,46 @@ def emit_fn(f, udir, unit_props, recs, log_global):
         base.pop("tail", None)
         f = base
     src = get_src(f["source"])
-    if f.get("nested_in"):
+    if f.get("macro_inst"):
+        # R-macroinst: the fn item inside a macro_rules! body, with the macro's single `$name:ty` parameter substituted textually
+        # (what the compiler's expansion does); `stringify!($x)` becomes the string literal
+        mi = f["macro_inst"]
+        mtext = src.text
+        mm = re.search(r"macro_rules!\s*%s\s*\{" % re.escape(mi["macro"]), mtext)
+        if not mm:
+            raise AnchorLost("macro not found: %s" % mi["macro"])
+        mend = match_close(mtext, src.mask, mm.end() - 1)
+        sub = Src.__new__(Src)
+        seg = mtext[mm.end():mend]
+        seg = re.sub(r"stringify!\(\s*\$%s\s*\)" % re.escape(mi["param"]), '"%s"' % mi["arg"], seg)
+        seg = seg.replace("$" + mi["param"], mi["arg"])
+        sub.path = src.path + "#" + mi["macro"] + "!(" + mi["arg"] + ")"
+        sub.text = seg
+        sub.mask = code_mask(seg)
+        loc = sub.find_fn(f["name"], None, f.get("nth", 0), nested_in=None) if False else None
+        # the fn sits inside `impl .. for $type { .. }` in the macro body: search without the impl filter
+        pat = re.compile(r"fn\s+%s\s*[<(]" % re.escape(f["name"]))
+        hit = None
+        for x in pat.finditer(seg):
+            if sub.mask[x.start()]:
+                hit = x
+                break
+        if hit is None:
+            raise AnchorLost("fn %s not found in macro %s" % (f["name"], mi["macro"]))
+        k = hit.end() - 1
+        if seg[k] == "<":
+            k = sub._skip_angle(k)
+            while seg[k] != "(":
+                k += 1
+        pe = match_close(seg, sub.mask, k)
+        j = pe + 1
+        while not (sub.mask[j] and seg[j] == "{"):
+            j += 1
+        be = match_close(seg, sub.mask, j)
+        base_line = mtext.count("\n", 0, mm.end() + hit.start()) + 1
+        loc = dict(start=hit.start(), body_open=j, body_close=be, sig=seg[hit.start():j], body=seg[j:be + 1], line=base_line,
+                   end_line=base_line + seg.count("\n", hit.start(), be))
+    elif f.get("nested_in"):
         # R-hoist: a fn item nested in another fn's body captures nothing; it is emitted as a free function of the same text
         loc = src.find_fn(f["name"], None, f.get("nth", 0), nested_in=(f["nested_in"]["name"], f["nested_in"].get("impl")))
     else:
@@ -1070,6 +1151,9 @@ def emit_fn(f, udir, unit_props, recs, log_global):
             log += l
         if "matchcount" in rewrites:
             body, l = r_matchcount(body)
+            log += l
+        if "iife" in rewrites:
+            body, l = r_iife(body)
             log += l
         if "continue" in rewrites:
             body, l = r_continue(body)
@@ -1255,8 +1339,12 @@ def assemble(unit_name, canary=False, demote=()):
             if emit_impl:
                 add(emit_impl + " {\n")
             cur_impl = emit_impl
-        if f.get("impl_pre") and "from_unit" not in f:
-            add(f["impl_pre"].rstrip() + "\n")
+        ipre = f.get("impl_pre")
+        if "from_unit" in f and not ipre:
+            # a stub of a trait-impl method carries the spec items of its impl too (e.g. `enc` of an encoder proved elsewhere)
+            ipre = dict(lookup_contract(f["from_unit"], f["from_id"])).get("impl_pre")
+        if ipre:
+            add(ipre.rstrip() + "\n")
         add("// ---- %s  [%s]  %s:%d-%d sha=%s\n" % (rec.id, rec.mode, rec.source, rec.line, rec.end_line, rec.sha))
         rec.emit_start = pos[0]
         add(text)
